@@ -225,7 +225,14 @@ modify_factor(cholmod_sparse *A, cholmod_factor *L,
 	 * rowadd/rowdel. Twiddle as appropriate.
 	 */
 	#define GOTO_SPEEDUP 9.0
-	n_threads = get_nthreads();
+	/*
+	 * Use the nominal thread count assumed above, not get_nthreads():
+	 * the choice between updating and recomputing the factorization
+	 * changes the rounding of the factor, so a threshold that depends
+	 * on OMP_NUM_THREADS makes the fit coefficients depend on the
+	 * number of worker threads.
+	 */
+	n_threads = 16;
 
 	if ((c->modfl <= 0) && (c->lnz > 0)) {
 		/* 
